@@ -211,8 +211,12 @@ def rules(ctx: Ctx) -> None:
         for n in prog.walk_fn(f):
             target = None
             how = None
-            if isinstance(n, (ast.Subscript, ast.Attribute)) and isinstance(n.ctx, (ast.Store, ast.Del)):
+            if isinstance(n, ast.Attribute) and isinstance(n.ctx, ast.Store) and isinstance(prog.parent(n), ast.AugAssign) and prog.parent(n).target is n:
+                target, how = n, "augmented assignment"  # `x.a += [..]` extends the object x.a holds in place (and re-binds x.a to it)
+            elif isinstance(n, (ast.Subscript, ast.Attribute)) and isinstance(n.ctx, (ast.Store, ast.Del)):
                 target, how = n.value, "store"
+            elif isinstance(n, ast.Call) and isinstance(n.func, ast.Name) and n.func.id in ("setattr", "delattr") and n.args and isinstance(n.args[0], (ast.Name, ast.Attribute)):
+                target, how = n.args[0], f"{n.func.id}()"
             elif isinstance(n, ast.Call) and isinstance(n.func, ast.Attribute) and n.func.attr in MUTATORS:
                 target, how = n.func.value, f".{n.func.attr}()"
             elif isinstance(n, ast.Name) and isinstance(n.ctx, ast.Store) and n.id in declared_global:
@@ -236,7 +240,7 @@ def rules(ctx: Ctx) -> None:
                     ctx.ob("R12.2", f"module-state:{r[1]}:{f.name}", False, where,
                            f"`{u(prog.enclosing_stmt(n))[:80]}` mutates module-level `{r[1]}` during a run: it survives into the next run")
                     continue
-                if r[0] == "ext" and how is not None and isinstance(target, ast.Name):
+                if r[0] == "ext" and how is not None and (isinstance(target, ast.Name) or (isinstance(n, ast.Attribute) and all(isinstance(x, (ast.Attribute, ast.Name)) for x in ast.walk(target) if isinstance(x, ast.expr) and not isinstance(x, ast.expr_context)))):
                     n_sites += 1
                     ctx.ob("R12.2", f"foreign-state:{r[1]}:{f.name}", False, where,
                            f"`{u(prog.enclosing_stmt(n))[:80]}` mutates the dependency's shared object `{r[1]}` during a run")
@@ -319,7 +323,9 @@ def rules(ctx: Ctx) -> None:
         if a is None:
             continue
         for d in list(a.defaults) + [x for x in a.kw_defaults if x is not None]:
-            if isinstance(d, ast.Call):
+            if is_mutable_init(d):
+                ctx.ob("R12.2", f"default-arg-mutable:{f.name}", False, f.loc(), f"mutable default argument `{u(d)}` is one object shared by all calls, runs and threads")
+            elif isinstance(d, ast.Call):
                 t = prog.infer(d, None, mod=f.mod)
                 for alt in t.alts():
                     if alt.kind == "inst" and alt.name in prog.classes:
@@ -332,8 +338,6 @@ def rules(ctx: Ctx) -> None:
                                 isinstance(n, ast.Attribute) and isinstance(n.ctx, ast.Store) and isinstance(n.value, ast.Name) and n.value.id == "self" for n in ast.walk(m.node))]
                             ctx.ob("R12.2", f"default-arg-object:{f.name}:{k.name}", not writes, f.loc(),
                                    f"default `{u(d)}` is shared by all calls: class {k.name} must be immutable after construction" + (f" (written in {writes})" if writes else ""))
-            elif is_mutable_init(d):
-                ctx.ob("R12.2", f"default-arg-mutable:{f.name}", False, f.loc(), f"mutable default argument `{u(d)}` is shared by all calls")
     # import-time patches of sqlparse tables run at import only
     for f in prog.funcs.values():
         if f.qual in reach:
